@@ -85,6 +85,22 @@ def side_constraints(atom_ids, free=()):
                 out.append(zvar(si) * zvar(si) + zvar(ci) * zvar(ci) == 1)
                 seen.add(si)
                 seen.add(ci)
+            if fname == 'pow' and len(args) == 2 and args[1].is_const():
+                # t = base^(p/q), base >= 0:  t^q = base^p, t >= 0
+                e = args[1].cval()
+                pnum, q = e.numerator, e.denominator
+                if 0 < q <= 6 and 0 < pnum <= 6:
+                    t = zvar(i)
+                    b = term_z3(args[0])
+                    lhs = t
+                    for _ in range(q - 1):
+                        lhs = lhs * t
+                    rhs = b
+                    for _ in range(pnum - 1):
+                        rhs = rhs * b
+                    out.append(lhs == rhs)
+                    out.append(t >= 0)
+                    out.append(b >= 0)
             ex = W.extra[i]
             for con in ex.get('constraints', ()):  # harness-supplied contracts on this atom
                 out.append(con)
@@ -265,6 +281,18 @@ def compare(d, op):
             ex.note_generic(d)
             return op == '!='
     return formula(d, op)
+
+
+def _rational_model(m):
+    """Only models whose values are all rational are reused for cheap evaluation (algebraic numbers make eval very slow)."""
+    try:
+        for d in m.decls():
+            v = m[d]
+            if z3.is_algebraic_value(v):
+                return False
+    except z3.Z3Exception:
+        return False
+    return True
 
 
 _CUR = [None]
@@ -506,7 +534,16 @@ class Explorer:
         s.add(*conds)
         s.add(*sides)
         t0 = time.time()
-        r = s.check()
+        import threading
+        wd = threading.Timer(self.timeout / 1000.0 + 3.0, s.ctx.interrupt)   # nlsat does not always honour the soft timeout
+        wd.daemon = True
+        wd.start()
+        try:
+            r = s.check()
+        except z3.Z3Exception:
+            r = z3.unknown
+        finally:
+            wd.cancel()
         self.solver_s += time.time() - t0
         self.nq += 1
         rs = str(r)
@@ -553,11 +590,11 @@ class Explorer:
                     break
             if t_ok is None:
                 t_ok, m = self.check(pcz + [sb.z], atoms)
-                if m is not None:
+                if m is not None and _rational_model(m):
                     self._models.append(m)
             if f_ok is None:
                 f_ok, m = self.check(pcz + [z3.Not(sb.z)], atoms)
-                if m is not None:
+                if m is not None and _rational_model(m):
                     self._models.append(m)
             if 'unknown' in (t_ok, f_ok):
                 self.unknown += 1
